@@ -519,6 +519,8 @@ class StealthScenario(ChangeScenario):
                                                                              + (" and is marked for deletion: it cannot go away" if 'deletionTimestamp' in obj['metadata'] else ""),
                                          clause='stealth', deleting='deletionTimestamp' in obj['metadata']))
         matched = {n for n in self.params['matched']} if not env.owes() else set()
+        if env.deviations:
+            matched -= set(self.params.get('unmatched_later', []))     # (a relabelling moved ahead of the handling: the object may never have been handled)
         for n in matched:
             if not any(p.get('name') == n for _, k, p in env.obs if k == 'call'):
                 out.append(self.viol(env, 'matched-not-invoked', f"no handler was invoked for the matching object {n}", clause='exact'))
